@@ -592,3 +592,16 @@ Proof. unfold sdss2eq_xyz_src, sdss_unit. f_equal; try (apply vec_eq; ring). Qed
 
 Lemma eq2sdss_src_ok ra dec : eq2sdss_xyz_src ra dec = Some (eq2sdss_xyz ra dec).
 Proof. unfold eq2sdss_xyz_src, eq2sdss_xyz. f_equal; try (apply vec_eq; ring). Qed.
+
+(* the output stage translated from the source (arctan2 := Model.atan2, % := Model.Rmod) is the model's *)
+Lemma euler_out_src_ok r a b :
+  let v := euler_xyz r a b in
+  euler_out_src atan2 Rmod (r_psi r) (vx v) (vy v) (vz v) = Some (euler_R_gen true r a b).
+Proof.
+  intro v. unfold euler_out_src, euler_R_gen, lat_by, lat_of, lon_of, fourpi, twopi. fold v.
+  f_equal. repeat (try reflexivity; try lra; f_equal).
+Qed.
+
+Lemma xyz2thetaphi_out_src_ok v :
+  xyz2thetaphi_out_src atan2 Rmod (vx v) (vy v) (vz v) = Some (lon_of v, lat_of v).
+Proof. reflexivity. Qed.
